@@ -22,7 +22,17 @@ func init() {
 	add("c05-prov-innerrange", "C05.prov", "pkg/decode/value.go",
 		"return ranges.Range{Start: 0, Len: v.Range.Len}", "return ranges.Range{Start: v.Range.Start, Len: v.Range.Len}", "InnerRange:root")
 	add("c05-prov-innerrange-swap", "C05.prov", "pkg/decode/value.go",
-		"func (v *Value) InnerRange() ranges.Range {\n\tif v.IsRoot {", "func (v *Value) InnerRange() ranges.Range {\n\tif !v.IsRoot {", "InnerRange:")
+		"func (v *Value) InnerRange() ranges.Range {\n\tif v.IsRoot &&", "func (v *Value) InnerRange() ranges.Range {\n\tif !v.IsRoot &&", "InnerRange:")
+	add("c05-prov-innerrange-parent", "C05.prov", "pkg/decode/value.go",
+		"func (v *Value) InnerRange() ranges.Range {\n\tif v.IsRoot && v.Parent != nil {", "func (v *Value) InnerRange() ranges.Range {\n\tif v.IsRoot && v.Parent == nil {", "InnerRange:")
+	add("c05-prov-innerrange-or", "C05.prov", "pkg/decode/value.go",
+		"func (v *Value) InnerRange() ranges.Range {\n\tif v.IsRoot && v.Parent != nil {", "func (v *Value) InnerRange() ranges.Range {\n\tif v.IsRoot || v.Parent != nil {", "InnerRange:non-root")
+	add("c05-prov-key-bits-unit", "C05.prov", idec,
+		"\t\t\tr:    dv.InnerRange(),\n\t\t\tunit: 1,", "\t\t\tr:    dv.InnerRange(),\n\t\t\tunit: 8,", "value-key:_bits:unit")
+	add("c05-prov-key-bytes-synthetic", "C05.prov", idec,
+		"case \"_bytes\":\n\t\tif s, ok := dv.V.(scalar.Scalarable); ok && s.ScalarFlags().IsSynthetic() {\n\t\t\treturn nil\n\t\t}\n", "case \"_bytes\":\n", "value-key:_bytes:synthetic")
+	add("c05-prov-key-bytes-range", "C05.prov", idec,
+		"\t\t\tr:    dv.InnerRange(),\n\t\t\tunit: 8,", "\t\t\tr:    dv.Range,\n\t\t\tunit: 8,", "binary-of-value:")
 	add("c05-prov-openfile", "C05.prov", ibin,
 		"return NewBinaryFromBitReader(of.br, 8, 0)", "return NewBinaryFromBitReader(of.br, 8, 8)", "openFile.ToBinary")
 	add("c05-prov-decode-range", "C05.prov", idec,
@@ -57,7 +67,26 @@ func init() {
 	add("c05-rootbase-nested-range", "C05.rootbase", ddec,
 		"\t\tFillGaps:    true,\n\t\tIsRoot:      true,\n\t\tInArg:       inArg,", "\t\tFillGaps:    true,\n\t\tIsRoot:      true,\n\t\tRange:       ranges.Range{Start: 8, Len: 8},\n\t\tInArg:       inArg,", "decode-call:(*pkg/decode.D).TryFieldFormatBitBuf")
 
+	add("c05-rootbase-walk-conditional", "C05.rootbase", ddec,
+		"\t\t\tv.RootReader = br\n\t\t\treturn nil", "\t\t\tif v.RootReader == nil {\n\t\t\t\tv.RootReader = br\n\t\t\t}\n\t\t\treturn nil", "decode:walk-rootreader")
+	add("c05-rootbase-addchild-parent", "C05.rootbase", ddec,
+		"func (d *D) AddChild(v *Value) {\n\tv.Parent = d.Value\n", "func (d *D) AddChild(v *Value) {\n\tif !v.IsRoot {\n\t\tv.Parent = d.Value\n\t}\n", "AddChild:parent")
+	add("c05-rootbase-rawroot-len", "C05.rootbase", ddec,
+		"v.Range = ranges.Range{Start: d.Pos(), Len: brLen}", "v.Range = ranges.Range{Start: d.Pos(), Len: brLen - d.Pos()}", "nested-root:(*pkg/decode.D).FieldRootBitBuf")
+	add("c05-rootbase-result-len", "C05.rootbase", ddec,
+		"\tdv.Range.Start = d.Pos()\n\n\td.AddChild(dv)\n\n\treturn dv, v, err\n}\n\nfunc (d *D) FieldFormatBitBuf", "\tdv.Range = ranges.Range{Start: d.Pos(), Len: d.BitsLeft()}\n\n\td.AddChild(dv)\n\n\treturn dv, v, err\n}\n\nfunc (d *D) FieldFormatBitBuf", "decode-result:(*pkg/decode.D).TryFieldFormatBitBuf")
+
+	// C05.span (borrowed C03.post / C03.sub / C03.minmax obligations)
+	add("c05-span-nested-not-root", "C05.span", ddec,
+		"\tc := &Compound{IsArray: false}\n\tcd := d.fieldDecoder(name, br, c)\n\tcd.Value.IsRoot = true\n", "\tc := &Compound{IsArray: false}\n\tcd := d.fieldDecoder(name, br, c)\n", "root-before-fn")
+	add("c05-span-root-child-folded", "C05.span", "pkg/decode/value.go",
+		"\t\t\t\tif f.IsRoot {\n\t\t\t\t\tcontinue\n\t\t\t\t}\n", "", "postProcess:")
+	add("c05-span-minmax", "C05.span", "pkg/ranges/ranges.go",
+		"func (r Range) Stop() int64 { return r.Start + r.Len }", "func (r Range) Stop() int64 { return r.Start + r.Len - 1 }", "Stop")
+
 	// C05.pad
+	add("c05-pad-padunits-negative", "C05.pad", ibin,
+		"if opts.Unit <= 0 || opts.PadToUnits < 0 {", "if opts.Unit <= 0 {", "_toBits:padunits-nonneg")
 	add("c05-pad-formula", "C05.pad", ibin,
 		"bv.pad = (pad - bv.r.Len%pad) % pad", "bv.pad = (pad - bv.r.Start%pad) % pad", "_toBits:pad-formula")
 	add("c05-pad-formula-nomod", "C05.pad", ibin,
@@ -91,6 +120,13 @@ func init() {
 	add("c05-raw-inverted", "C05.raw", ibin,
 		"if opts.RawOutput {\n\t\tbr, err := b.toReader()", "if !opts.RawOutput {\n\t\tbr, err := b.toReader()", "Display:")
 
+	add("c05-raw-error-swallowed", "C05.raw", ibin,
+		"\t\tif _, err := bitiox.CopyBits(w, br); err != nil {\n\t\t\treturn err\n\t\t}\n\n\t\treturn nil", "\t\t_, _ = bitiox.CopyBits(w, br)\n\n\t\treturn nil", "Display:raw-returns")
+
+	// C05.cover (borrowed C04.path obligations)
+	add("c05-cover-root-not-filled", "C05.cover", ddec,
+		"\t\tif opts.FillGaps {\n\t\t\td.FillGaps(", "\t\tif opts.FillGaps && !opts.IsRoot {\n\t\t\td.FillGaps(", "filled")
+
 	// C05.fmt
 	add("c05-fmt-md5-shared", "C05.fmt", iint,
 		"return func(br bitio.ReaderAtSeeker) (any, error) {\n\t\t\td := md5.New()", "d := md5.New()\n\t\treturn func(br bitio.ReaderAtSeeker) (any, error) {", "render:md5:sink")
@@ -111,7 +147,20 @@ func init() {
 	add("c05-fmt-chain-binary", "C05.fmt", ibin,
 		"func (b Binary) JQValueToGoJQEx(optsFn func() (*Options, error)) any {\n\tbr, err := b.toReader()", "func (b Binary) JQValueToGoJQEx(optsFn func() (*Options, error)) any {\n\tbr, err := bitiox.Range(b.br, b.r.Start, b.r.Len)", "chain:Binary")
 
+	add("c05-fmt-chain-synthetic-inverted", "C05.fmt", idec,
+		"ok && !s.ScalarFlags().IsSynthetic() {\n\t\tbv, err := v.ToBinary()", "ok && s.ScalarFlags().IsSynthetic() {\n\t\tbv, err := v.ToBinary()", "chain:decodeValue")
+	add("c05-fmt-snippet-base", "C05.fmt", iint,
+		"StringByteBits(opts.Sizebase)", "StringByteBits(opts.Addrbase)", "render:snippet:result")
+	add("c05-fmt-bytearray-signed", "C05.fmt", iint,
+		"v = append(v, int(bv))", "v = append(v, int(int8(bv)))", "render:byte_array:result")
+
 	// C05.jq
+	add("c05-jq-cli-raw-default", "C05.jq", "pkg/interp/interp.jq",
+		"def _display_default_opts:\n  options({depth: 1});", "def _display_default_opts:\n  options({depth: 1, raw_output: false});", "def:_cli_display/0:raw_output-default")
+	add("c05-jq-display-extra-stage", "C05.jq", "pkg/interp/interp.jq",
+		"| if $opts.value_output then tovalue end", "| if $opts.value_output then tovalue end\n  | if _exttype == \"binary\" then tobytes end", "display/2:stages")
+	add("c05-jq-display-condition", "C05.jq", "pkg/interp/interp.jq",
+		"  | if _can_display then", "  | if _can_display and ($opts.raw_string | not) then", "display/2:stages")
 	add("c05-jq-tobytes-unit", "C05.jq", "pkg/interp/binary.jq",
 		"def tobytes: _tobits({unit: 8,", "def tobytes: _tobits({unit: 1,", "def:tobytes/0")
 	add("c05-jq-tobits-keep", "C05.jq", "pkg/interp/binary.jq",
